@@ -1169,3 +1169,111 @@ def _self_stores(fn):
             if isinstance(x, ast.Attribute) and isinstance(
                 x.ctx, ast.Store) and au.chain(x)
             and au.chain(x)[0] == 'self' and len(au.chain(x)) == 2}
+
+
+def _free_loads(node):
+    """Name loads in `node` that are not bound by a comprehension or a
+    lambda inside it."""
+    out = []
+
+    def visit(n, bound):
+        if isinstance(n, (ast.ListComp, ast.SetComp, ast.DictComp,
+                          ast.GeneratorExp)):
+            b = set(bound)
+            for g in n.generators:
+                visit(g.iter, b)
+                b |= {x.id for x in ast.walk(g.target)
+                      if isinstance(x, ast.Name)}
+                for c in g.ifs:
+                    visit(c, b)
+            for part in ([n.key, n.value] if isinstance(
+                    n, ast.DictComp) else [n.elt]):
+                visit(part, b)
+            return
+        if isinstance(n, ast.Lambda):
+            b = set(bound) | {p.arg for p in n.args.args}
+            visit(n.body, b)
+            return
+        if isinstance(n, (ast.FunctionDef, ast.AsyncFunctionDef,
+                          ast.ClassDef)):
+            return
+        if isinstance(n, ast.Name) and isinstance(
+                n.ctx, ast.Load) and n.id not in bound:
+            out.append(n)
+        for c in ast.iter_child_nodes(n):
+            visit(c, bound)
+    visit(node, set())
+    return out
+
+
+def r_unbound(P, R):
+    """A local that is assigned only inside a loop and read after it does
+    not exist when the loop runs zero times (no variables, no roots, an
+    empty file): the read raises UnboundLocalError."""
+    n = 0
+    for f in sorted(P.all_funcs(MODS), key=lambda f: f.qualname):
+        if not in_scope(P, R, f):
+            continue
+        fn = f.node
+        params = set(f.params)
+        if fn.args.vararg:
+            params.add(fn.args.vararg.arg)
+        if fn.args.kwarg:
+            params.add(fn.args.kwarg.arg)
+        for blk in au.blocks_of(fn):
+            for k, lp in enumerate(blk):
+                if not isinstance(lp, (ast.For, ast.While)):
+                    continue
+                n += 1
+                # a loop over a non-empty literal always runs
+                if isinstance(lp, ast.For) and isinstance(
+                        lp.iter, (ast.Tuple, ast.List)) and lp.iter.elts:
+                    continue
+                inside = {x.id for s in lp.body for x in ast.walk(s)
+                          if isinstance(x, ast.Name)
+                          and isinstance(x.ctx, ast.Store)}
+                if isinstance(lp, ast.For):
+                    inside |= {x.id for x in ast.walk(lp.target)
+                               if isinstance(x, ast.Name)}
+                before = set(params)
+                for x in ast.walk(fn):
+                    if isinstance(x, ast.Name) and isinstance(
+                            x.ctx, ast.Store) and x.lineno < lp.lineno:
+                        before.add(x.id)
+                    if isinstance(x, (ast.FunctionDef, ast.ClassDef)) \
+                            and x is not fn and x.lineno < lp.lineno:
+                        before.add(x.name)
+                rebound = set()
+                later_stores = [
+                    (y.id, y.lineno, y.col_offset) for s2 in blk[k + 1:]
+                    for y in ast.walk(s2) if isinstance(y, ast.Name)
+                    and isinstance(y.ctx, ast.Store)]
+                for s in blk[k + 1:]:
+                    val = s.value if isinstance(s, (
+                        ast.Assign, ast.AnnAssign, ast.AugAssign)) and \
+                        getattr(s, 'value', None) is not None else s
+                    for x in _free_loads(val):
+                        if any(nm == x.id and (ln, co) < (
+                                x.lineno, x.col_offset)
+                               for nm, ln, co in later_stores):
+                            continue
+                        if x.id in inside and x.id not in before and \
+                                x.id not in rebound:
+                            R.violation(
+                                'R-UNBOUND', 'assigned-in-loop-only',
+                                f.qualname, x.id,
+                                f'`{x.id}` (read at line {x.lineno}) is '
+                                'assigned only inside the loop at line '
+                                f'{lp.lineno} (`{au.short(lp.iter if isinstance(lp, ast.For) else lp.test, 40)}`): '
+                                'when the loop does not run - an empty '
+                                'collection - the read raises '
+                                'UnboundLocalError', unit=f.unit.rel,
+                                line=x.lineno)
+                            rebound.add(x.id)
+                    rebound |= {x.id for x in ast.walk(s)
+                                if isinstance(x, ast.Name)
+                                and isinstance(x.ctx, ast.Store)}
+    R.holds('R-UNBOUND', f'loops behind {R.prop}',
+            f'{n} loop(s): nothing assigned only inside a loop is read '
+            'after it', nontrivial=False)
+r_unbound.NAME = 'R-UNBOUND'
